@@ -14,4 +14,5 @@ def jobs(tier, seed):
     for pre in (b'POST ', b'GET ', b'POST', b'PUT '):
         J += deepen(P, G, 'fastpath-' + pre.decode().strip(), lambda n, pre=pre: sc('req', n, prefix=pre, api='parse', cap=1),
                     range(1, T(tier, 4, 6) + 1), T(tier, 60, 300), f'request {pre!r} + ' + '{n} symbolic bytes', 3)
+    if tier == 'thorough': J += sliding_families(P, G, tier)
     return J
